@@ -3,7 +3,6 @@
 package main
 
 import (
-	"runtime"
 	"bytes"
 	"crypto/sha256"
 	"encoding/json"
@@ -14,6 +13,7 @@ import (
 	"os"
 	"os/exec"
 	"path/filepath"
+	"runtime"
 	"strings"
 	"sync"
 
